@@ -126,7 +126,10 @@ func runC01(c *core.Ctx) {
 		// the first leaf (stored as the root) is created only for a non-empty value
 		core.Instrs(fn, func(in ssa.Instruction) {
 			st, ok := in.(*ssa.Store)
-			if !ok || !func() bool { fa, isFa := st.Addr.(*ssa.FieldAddr); return isFa && core.FieldOfAddr(fa).Name() == "root" }() {
+			if !ok || !func() bool {
+				fa, isFa := st.Addr.(*ssa.FieldAddr)
+				return isFa && core.FieldOfAddr(fa).Name() == "root"
+			}() {
 				return
 			}
 			mi, isMi := st.Val.(*ssa.MakeInterface)
